@@ -293,6 +293,8 @@ let run_c05lin path =
       let parsed = L.map (fun e -> match split ';' e with
         | [_; call; ret; o; r] -> (lop_of_s o, vlist_of_s r, int_of_string call, int_of_string ret)
         | _ -> failwith ("bad event " ^ e)) evs in
+      (* candidates are tried in call order, which is close to the order a correct implementation linearizes in *)
+      let parsed = L.sort (fun (_, _, c1, _) (_, _, c2, _) -> compare c1 c2) parsed in
       let h = L.map (fun (o, r, c, t) -> TreeLin.mk_event o r (n_of_int c) (n_of_int t)) parsed in
       (* non-trivial: some pair of operations really overlaps in time *)
       if L.exists (fun (_, _, c1, t1) -> L.exists (fun (_, _, c2, t2) -> c1 < c2 && c2 < t1) parsed) parsed then incr concurrent;
